@@ -117,28 +117,49 @@ def check_equivalent(ctx, orig, new, pk, label):
     ctx.prove(ok, label, ("pk", pk, "orig", ro, so, "new", mn, rn, sn))
 
 
+def _spread(v, bits):
+    """Bit i of v moved to position bits[i]."""
+    out = 0
+    for i, b in enumerate(bits):
+        out = out | (((v >> i) & 1) << b)
+    return out
+
+
 def make_table(ctx, n, W, routes, srcs, discipline, common_x, exact=0,
-               masks=None):
+               masks=None, bits=None):
+    """`bits`: the W bit positions of the window (default: the low W bits);
+    keys and masks are symbolic there and shared / fully specified
+    elsewhere."""
     from rig.routing_table import RoutingTableEntry
     from rig.routing_table.utils import intersect
     R = _menus()
-    win = (1 << W) - 1
+    if bits is None:
+        bits = tuple(range(W))
+    assert len(bits) == W
+    plain = tuple(bits) == tuple(range(W))
+    win = 0
+    for b in bits:
+        win |= 1 << b
+    lowwin = (1 << W) - 1
     hi = F32 & ~win
     P = ctx.bv("P", 32)
     cx = 0x00010000 if common_x else 0
+    assert not (cx & win)
     table = []
     for i in range(n):
         kw = ctx.bv("k", W)
         if masks is not None:
             # window mask chosen by the unit, key symbolic under it
             mw = const(masks[i])
-            ctx.assume((kw & ~mw & win) == 0)
+            ctx.assume((kw & ~mw & lowwin) == 0)
         elif i < exact:
             # a fully specified entry (no X inside the window)
-            mw = const(win)
+            mw = const(lowwin)
         else:
             mw = ctx.bv("m", W)
-            ctx.assume((kw & ~mw & win) == 0)
+            ctx.assume((kw & ~mw & lowwin) == 0)
+        if not plain:
+            kw, mw = _spread(kw, bits), _spread(mw, bits)
         key = (P & (hi & ~cx)) | kw
         mask = const(hi & ~cx) | mw
         route = R[routes[i]]
@@ -152,7 +173,7 @@ def make_table(ctx, n, W, routes, srcs, discipline, common_x, exact=0,
     elif discipline == "sorted":
         def gen(e):
             g = 0
-            for b in range(W):
+            for b in bits:
                 g = g + ite((e.mask & (1 << b)) == 0, 1, 0)
             return g
         gs = [gen(e) for e in table]
@@ -168,7 +189,7 @@ def _target(ctx, n, mode):
 
 
 def h_min(ctx, which, n, W, routes, srcs, discipline, target, common_x=False,
-          exact=0, masks=None):
+          exact=0, masks=None, bits=None):
     from rig.routing_table import MinimisationFailedError
     from rig.routing_table import remove_default_routes as rdr
     from rig.routing_table import ordered_covering as oc
@@ -176,7 +197,7 @@ def h_min(ctx, which, n, W, routes, srcs, discipline, target, common_x=False,
     import rig.routing_table as rt
 
     table = make_table(ctx, n, W, routes, srcs, discipline, common_x, exact,
-                       masks)
+                       masks, bits)
     orig = list(table)
     snapshot = [(e.route, e.key, e.mask, set(e.sources)) for e in table]
     t = _target(ctx, n, target)
@@ -513,16 +534,17 @@ def units(tier, seed):
     us = [Unit("empty table", h_empty)]
 
     def add(which, n, W, routes, srcs, disc, target, split=0, cx=False,
-            wit=("returned",), exact=0, masks=None):
-        name = "%s n=%d W=%d routes=%s srcs=%s %s target=%s%s%s%s" % (
+            wit=("returned",), exact=0, masks=None, bits=None):
+        name = "%s n=%d W=%d routes=%s srcs=%s %s target=%s%s%s%s%s" % (
             which, n, W, routes, srcs, disc, target, " cx" if cx else "",
             " exact=%d" % exact if exact else "",
             " masks=" + ",".join(format(m, "0%db" % W) for m in masks)
-            if masks else "")
+            if masks else "",
+            " bits=" + ",".join(map(str, bits)) if bits else "")
         us.append(Unit(name, h_min, dict(
             which=which, n=n, W=W, routes=routes, srcs=srcs,
             discipline=disc, target=target, common_x=cx, exact=exact,
-            masks=masks),
+            masks=masks, bits=bits),
             split=split, witnesses=wit, path_timeout_s=300,
             timeout_ms=300000))
 
@@ -559,6 +581,12 @@ def units(tier, seed):
                         target="none"), split=6,
                    witnesses=("returned", "first-chip-merged"),
                    path_timeout_s=300, timeout_ms=300000))
+    # the window spread over several bytes of the key (the count of X bits --
+    # generality -- must weigh every bit position alike)
+    add("oc", 3, 3, "ABA", "uuu", "sorted", "none", split=6,
+        bits=(8, 24, 25), wit=("returned",))
+    add("oc", 2, 3, "AB", "uu", "sorted", "sym", split=4,
+        bits=(7, 15, 31), wit=("returned",))
     # five entries with concrete masks (keys symbolic under them): a merge of
     # three entries that the down-check prunes, after which the smaller
     # merged entry lands above an entry of intermediate generality
